@@ -78,7 +78,7 @@ GAME_ASSUME = ["valid configurations (DESIGN.md 2.1); amounts are int64 and the 
                "operations are those of table/native_backend.go plus Game.Player(i).<action>"]
 
 
-def game_plan(keys, cmds=None, extra_quick=None, extra_thorough=None, rule_extra="", n_quick=120):
+def game_plan(keys, cmds=None, extra_quick=None, extra_thorough=None, rule_extra="", n_quick=400):
     k = {"game": keys}
     q = [("game", {"n": n_quick, "cmds": cmds})]
     t = [("game", {"n": 4000, "cmds": cmds}), ("game", {"mode": "exhaustive", "scope": 3, "cmds": cmds})]
@@ -94,10 +94,15 @@ def game_plan(keys, cmds=None, extra_quick=None, extra_thorough=None, rule_extra
     }
 
 
-PLANS["C01"] = game_plan(["o", "same"] + CHIPS + ["pots"] + RESULT)
+PLANS["C01"] = game_plan(["o", "same"] + CHIPS + ["pots"] + RESULT,
+                         extra_quick=[("settle", {"n": 4000})],
+                         extra_thorough=[("settle", {"n": 200000}), ("settle", {"mode": "exhaustive", "scope": 4})],
+                         rule_extra="; the closing clauses are also checked on direct settlement vectors (see C02)")
+PLANS["C01"]["keys"]["settle"] = SETTLE_KEYS
+PLANS["C01"]["corpus"] = ["game", "settle"]
 PLANS["C02"]["keys"]["game"] = RESULT + ["pots", "potlevels", "fold", "cpower"]
 PLANS["C02"]["corpus"] = ["settle", "game"]
-PLANS["C02"]["quick"].append(("game", {"n": 100, "cmds": ["game-do", "game-new"]}))
+PLANS["C02"]["quick"].append(("game", {"n": 300, "cmds": ["game-do", "game-new"]}))
 PLANS["C02"]["thorough"].append(("game", {"n": 4000, "cmds": ["game-do", "game-new"]}))
 PLANS["C04"] = game_plan(["o", "same", "ev", "rd", "cur", "allowed"])
 PLANS["C05"] = game_plan(["o", "ev", "rd", "cw", "acted", "fold", "stack", "wager", "board", "dpos"], cmds=["game-do", "game-new"])
@@ -108,7 +113,7 @@ PLANS["C07"]["quick"].append(("schema", {}))
 PLANS["C07"]["thorough"].append(("schema", {}))
 PLANS["C10"]["keys"]["game"] = ["ctype", "cpower", "ccards"]
 PLANS["C10"]["corpus"] = ["best", "game"]
-PLANS["C10"]["quick"].append(("game", {"n": 100, "cmds": ["game-do", "game-new"]}))
+PLANS["C10"]["quick"].append(("game", {"n": 300, "cmds": ["game-do", "game-new"]}))
 PLANS["C10"]["thorough"].append(("game", {"n": 4000, "cmds": ["game-do", "game-new"]}))
 PLANS["C11"] = game_plan(["o", "allowed"] + CHIPS)
 PLANS["C12"] = game_plan(["o", "same", "prs", "raiser"] + CHIPS)
@@ -122,7 +127,7 @@ PLANS["C15"]["quick"].append(("schema", {}))
 PLANS["C15"]["thorough"].append(("schema", {}))
 PLANS["C16"]["keys"]["game"] = ["pots", "potlevels"]
 PLANS["C16"]["corpus"] = ["pot", "game"]
-PLANS["C16"]["quick"].append(("game", {"n": 100, "cmds": ["game-do", "game-new"]}))
+PLANS["C16"]["quick"].append(("game", {"n": 300, "cmds": ["game-do", "game-new"]}))
 
 # ---------------- seat manager ----------------
 SEAT_RULE = ("random histories of join(seat | any | out-of-range) / sit-in / reserve / leave / next on tables of 1-10 seats, "
